@@ -217,3 +217,57 @@ benign('B-unconditional-notify-in-validate', ['C17'], [
 benign('B-single-predicate-check', ['C17'], [
     (W, "        if !blocked() {\n            return;\n        }\n\n        // Most scheduler stalls close within one worker timeslice.\n        thread::yield_now();\n        if blocked() {", "        if blocked() {"),
 ])
+
+I = 'src/incarnation_db.rs'
+mutant('R1-drop-code-read-set-insert', ['C01'], [
+    (I, "        self.read_set.insert(location, read_version);\n        Ok(result.expect(\"No bytecode\"))", "        let _ = (location, read_version);\n        Ok(result.expect(\"No bytecode\"))"),
+], ['|R1|'])
+mutant('R1-drop-storage-reset-insert', ['C01'], [
+    (I, "        self.read_set.insert(reset_location, reset_version);\n", "        let _ = (reset_location, reset_version);\n"),
+], ['|R1|'])
+mutant('R3-inclusive-range-in-basic', ['C01'], [
+    (I, "                let Some((&txid, entry)) =\n                    written_transactions.range(..self.version.txid).next_back() &&\n                let MemoryValue::Basic(account) = &entry.data", "                let Some((&txid, entry)) =\n                    written_transactions.range(..=self.version.txid).next_back() &&\n                let MemoryValue::Basic(account) = &entry.data"),
+], ['|R3|'])
+mutant('R3-oldest-writer-in-validate', ['C01'], [
+    (S, "written_transactions.range(..txid).next_back()", "written_transactions.range(..txid).next()"),
+], ['|R3|'])
+mutant('R4-version-records-own-incarnation', ['C01'], [
+    (I, "            slot_version = ReadVersion::MvMemory(TxVersion::new(txid, entry.incarnation));", "            slot_version = ReadVersion::MvMemory(TxVersion::new(txid, self.version.incarnation));"),
+], ['|R4|'])
+mutant('V1-delete-conflict-on-version-mismatch', ['C01'], [
+    (S, "                        if version.txid != previous_id ||\n                            version.incarnation != latest_version.incarnation\n                        {\n                            conflict = true;\n                        }", "                        if version.txid != previous_id {\n                            conflict = true;\n                        }"),
+], ['|V1|'])
+mutant('V1-storage-read-with-preceding-writer-accepted', ['C01'], [
+    (S, "                    } else {\n                        conflict = true;\n                    }\n                } else if !matches!(version, ReadVersion::Storage) {", "                    }\n                } else if !matches!(version, ReadVersion::Storage) {"),
+], ['|V1|'])
+mutant('V1-estimate-ignored-in-validation', ['C01'], [
+    (S, "                    if latest_version.estimate {\n                        conflict = true;\n                    } else if let ReadVersion::MvMemory(version) = version {", "                    if let ReadVersion::MvMemory(version) = version {"),
+], ['|V1|'])
+mutant('W1-publish-without-write-set', ['C01'], [
+    (I, "        write_set.insert(location.clone());\n        self.mv_memory", "        let _ = &write_set;\n        self.mv_memory"),
+], ['|W1|'])
+mutant('W1-estimate-not-derived', ['C01'], [
+    (I, "        let estimate = !self.blocking_txs.is_empty();", "        let estimate = false;"),
+], ['|W1|'])
+mutant('D3-gt-for-ge-in-storage', ['C01'], [
+    (I, "reset_txid.is_none_or(|reset_txid| slot_txid >= reset_txid)", "reset_txid.is_none_or(|reset_txid| slot_txid > reset_txid)"),
+], ['|D3|'])
+mutant('D3-reset-does-not-mask-backing', ['C01'], [
+    (I, "        if reset_txid.is_some() {\n            return Ok(U256::ZERO);\n        }\n", ""),
+], ['|D3|'])
+mutant('D2-deleted-without-storage-reset', ['C01'], [
+    (I, "                    self.publish_storage_reset(*address, estimate, &mut write_set);\n                    continue", "                    continue"),
+], ['|D2|'])
+mutant('D2-updated-publishes-reset', ['C01'], [
+    (I, "            if created {\n                self.publish_storage_reset", "            if created || info.nonce > 0 {\n                self.publish_storage_reset"),
+], ['|D2|'])
+mutant('K1-snapshot-only-code-changed', ['C01'], [
+    (I, "account_snapshot.is_none_or(|basic| basic.code_hash != Some(info.code_hash));", "account_snapshot.is_some_and(|basic| basic.code_hash != Some(info.code_hash));"),
+], ['|D2|', '|K1|'])
+benign('B-ignore-estimate-at-one-read-site', ['C01'], [
+    (I, "            result = Some(code.clone());\n            if entry.estimate {\n                self.blocking_txs.insert(txid);\n            }", "            result = Some(code.clone());"),
+])
+benign('B-publish-basic-for-beneficiary', ['C01'], [
+    (I, "            if !self.beneficiary.matches(*address) &&\n                (code_changed ||", "            if (code_changed ||"),
+    (I, "                        basic.nonce != info.nonce || basic.balance != info.balance\n                    }))\n            {", "                        basic.nonce != info.nonce || basic.balance != info.balance\n                    })) && true\n            {"),
+])
